@@ -28,7 +28,7 @@ CHECKS = {
             "DESIGN.md §5 C04"),
     "C05": ("exploration",
             "exhaustive enumeration of token strings and edit neighbourhoods; watchdog for non-termination; subprocess for size stressors",
-            "Every string of <=3 (quick) / <=4 (thorough) tokens over a 48-token alphabet hitting every lexer entry (identifiers, brackets, quotes, raw-string delimiters, escapes, digits, separators, operators, multi-byte and control characters) and the complete single-edit neighbourhood (delete, duplicate, truncate, insert each of 36 characters at each position; thorough: double edits on the 15 shortest) of a 62-filter corpus covering every construct is parsed as filter and as value expression: no panic, returns within the cap (watchdog), every error formats, and its text designates a line of the input with a column range inside that line. 41 size stressors (10^5-operand chains, 10^5-deep nestings of every construct, 10^5 list items / arguments / index accesses, raw strings with 255/256/10^5 hashes, giant identifiers and strings) run on a 2 MiB stack in a subprocess.",
+            "Every string of <=4 (quick) / <=5 (thorough) tokens over a 48-token alphabet hitting every lexer entry (identifiers, brackets, quotes, raw-string delimiters, escapes, digits, separators, operators, multi-byte and control characters) and the complete single-edit neighbourhood (delete, duplicate, truncate, insert each of 36 characters at each position; thorough: double edits on the 15 shortest) of a 62-filter corpus covering every construct is parsed as filter and as value expression: no panic, returns within the cap (watchdog), every error formats, and its text designates a line of the input with a column range inside that line. 41 size stressors (10^5-operand chains, 10^5-deep nestings of every construct, 10^5 list items / arguments / index accesses, raw strings with 255/256/10^5 hashes, giant identifiers and strings) run on a 2 MiB stack in a subprocess.",
             "Error well-formedness is read from the Display text only; inputs outside the enumerated families are not explored.",
             "DESIGN.md §5 C05"),
     "C06": ("exploration",
@@ -88,7 +88,7 @@ CHECKS = {
             "DESIGN.md §5 C18"),
     "C19": ("model_checking",
             "exhaustive enumeration of step sequences interpreted for real on fresh threads against a reference machine; all interleavings of two threads under the controlled scheduler",
-            "Every sequence of <=5 (quick) / <=6 (thorough) steps over {enable, disable, enter catch_panic, return, panic with a unique message, install hook again, set fallback Continue, get backtrace} (37 449 / 299 593 sequences) is interpreted on a fresh thread with real catch_panic frames and real unwinding (the interpreter's outermost catch_unwind plays `outside catch_panic`), with a sentinel hook installed before the catcher's: frame results (value / error text containing the message), nesting level after every step (cfg-guarded accessor), sentinel reception of uncaught panics and the recorded backtrace are compared with the reference machine; five deeper structured sequences; every pair of sequences of length <=2 (thorough: <=3 x <=2) over the five state-changing steps on two threads under every interleaving at step granularity: each thread's observations equal its single-thread reference.",
+            "Every sequence of <=5 (quick) / <=6 (thorough) steps over {enable, disable, enter catch_panic, return, panic with a unique message, install hook again, set fallback Continue, get backtrace} (37 449 / 299 593 sequences) is interpreted on a fresh thread with real catch_panic frames and real unwinding (the interpreter's outermost catch_unwind plays `outside catch_panic`), with a sentinel hook installed before the catcher's: frame results (value / error text containing the message), nesting level after every step (cfg-guarded accessor), sentinel reception of uncaught panics and the recorded backtrace are compared with the reference machine; five deeper structured sequences; histories up to length 8 (quick) / 10 (thorough) by breadth-first search with one representative history per abstract catcher state (enabled flag, stack of open frames tagged catching / transparent, message recorded), every transition interpreted for real; every pair of sequences of length <=2 (thorough: <=3 x <=2) over the five state-changing steps on two threads under every interleaving at step granularity: each thread's observations equal its single-thread reference.",
             "Hook: wirefilter::verif::panic_catcher_level. Fallback mode Abort (aborts by design) and the first-installation race of the hook are outside the property's precondition.",
             "DESIGN.md §5 C19"),
     "C20": ("model_checking",
